@@ -92,9 +92,20 @@ def all_families():
 
 def load_findings():
     p = os.path.join(ROOT, 'known_findings.json')
-    if not os.path.exists(p):
-        return {'open': [], 'fixed': []}
-    return json.load(open(p))
+    d = json.load(open(p)) if os.path.exists(p) else {'open': [], 'fixed': []}
+    d.setdefault('open', [])
+    d.setdefault('fixed', [])
+    # staging area used while a harness family is being written; merged into known_findings.json at integration
+    hd = os.path.join(ROOT, 'harness')
+    have = {k['id'] for k in d['open']}
+    for fam in sorted(os.listdir(hd)):
+        kp = os.path.join(hd, fam, 'kf.json')
+        if os.path.exists(kp):
+            for k in json.load(open(kp)):
+                if k['id'] not in have:
+                    d['open'].append(k)
+                    have.add(k['id'])
+    return d
 
 
 class Build:
@@ -565,7 +576,7 @@ def check(prop, tier, families=None, only_entry=None, verbose=False):
         print(l)
     for (fam, q, bb, r, reasons) in violations:
         print('VIOLATION property=%s replay=%s  [%s %s cfg=%s; %s; solver: %s; native: %s]' % (
-            prop, r.replay, fam.name, q['entry'], cfg_key(bb.cfg), 'confirmed' if r.confirmed else 'confirmed=0 (not reproduced natively)',
+            prop, r.replay, fam.name, q['entry'], cfg_key(bb.cfg), 'confirmed' if r.confirmed else ('replay skipped' if r.confirmed is None else 'confirmed=0 (not reproduced natively)'),
             '; '.join(d for _, d in r.failed[:3])[:300], '; '.join(reasons[:3])[:400]))
     for l in infra[:40]:
         print('CHECK-ERROR ' + l)
